@@ -152,8 +152,10 @@ end Columns
 section Stack
 variable {R V I S : Type} [Region R V I] [IdxCont S I] [IdxAux S] [Wire V]
 
-def stackXop (parse : Val → Option (List V)) (fs : FlatStack R S) (op : String) (args : List String) :
+def stackXop (parse : Val → Option (List V)) (fs : FlatStack R S) (op0 : String) (args : List String) :
     Option (FlatStack R S × String) :=
+  -- the size hint of the iterator handed to extend / from_iter is invisible to the model
+  let op := if op0 == "sextendl" then "sextend" else if op0 == "sfroml" then "sfrom" else op0
   match op, args with
   | "slen", [] => some (fs, s!"val {fs.len}")
   | "sisempty", [] => some (fs, s!"val {if fs.isEmpty then 1 else 0}")
